@@ -9,6 +9,7 @@ import (
 	"strings"
 
 	"github.com/hashicorp/go-hclog"
+	"github.com/hashicorp/go-multierror"
 )
 
 // Shared specification vocabulary of the resolver harnesses (DESIGN.md §4):
@@ -245,7 +246,7 @@ type hWorld struct {
 	// error (fmt.Errorf), 1 a distinct *ErrArgumentUnsatisfied (the library's own error
 	// type, as a converter forwarding an inner call's error returns), 2 / 3 a
 	// struct-valued error that is the ZERO value of its type for converter 1 / for the
-	// target (non-nil as an error all the same)
+	// target (non-nil as an error all the same), 4 a *multierror.Error holding one error
 	ErrKind int
 
 	// FailFn, when set, overrides the specs' Fails bit at execution time
@@ -628,6 +629,8 @@ func (w *hWorld) hMkErr(k int) error {
 		return hValErr{Code: k - 1}
 	case 3:
 		return hValErr{Code: k}
+	case 4:
+		return &multierror.Error{Errors: []error{fmt.Errorf("inner error of function %d", k)}}
 	}
 	return fmt.Errorf("harness error of function %d", k)
 }
